@@ -164,6 +164,9 @@ def arg_value(a):
 
 # --------------------------------------------------------------------------- configuration
 
+PRIO_MAP = {1000001: 202403010800, 1000002: 202403010900, -1000001: -(2 ** 40)}     # TLC integers are 32 bit
+
+
 def service_doc(s, explicit=None):
     """explicit: a Random; when given, empty collections are sometimes written out ([] / {} / ~) instead of omitted"""
     d = {}
@@ -196,7 +199,7 @@ def service_doc(s, explicit=None):
             if t["prio"] == 0 and not t.get("explicit"):
                 tags.append(t["n"])
             else:
-                tags.append({"name": t["n"], "priority": t["prio"]})
+                tags.append({"name": t["n"], "priority": PRIO_MAP.get(t["prio"], t["prio"])})
         d["tags"] = tags
     if s["scope"] != UNSET:
         d["scope"] = s["scope"]
@@ -243,5 +246,5 @@ def cfg_doc(cfg, explicit=None):
 def to_yaml(cfg, rng=None, explicit=None):
     doc = cfg_doc(cfg, explicit)
     if not doc:
-        return "{}\n"
+        return explicit.choice(["{}\n", "", "# nothing in this file\n"]) if explicit is not None else "{}\n"
     return emit(doc, rng) + "\n"
